@@ -142,8 +142,10 @@ def collapse_swa(ctx, content_type, ns_soap_env):
         charset = 'ascii'
 
     try:
-        codecs.lookup(charset)
-    except LookupError:
+        # python has codecs that are not character sets (hex, zlib, rot13 ..)
+        if not isinstance(u''.encode(charset), bytes):
+            raise LookupError(charset)
+    except (LookupError, UnicodeError):
         raise ValidationError(charset, "Unknown charset %r")
 
     boundary = content_data.get('boundary', None)
